@@ -62,6 +62,7 @@ func cmdRun(args []string) {
 	workers := fs.Int("workers", runtime.NumCPU(), "parallel workers")
 	maxPaths := fs.Int("max-paths", 0, "path limit")
 	maxSteps := fs.Int64("max-steps", 0, "per-path instruction budget")
+	maxAlloc := fs.Int("max-alloc", 0, "largest slice (elements) the harness may allocate (default 1 Mi)")
 	solverMs := fs.Int("solver-ms", 10000, "per-query solver timeout")
 	trace := fs.Bool("trace", false, "trace instructions")
 	params := fs.String("params", "", "harness parameters k=v,k=v")
@@ -82,7 +83,7 @@ func cmdRun(args []string) {
 		os.Exit(3)
 	}
 	fmt.Fprintf(os.Stderr, "loaded in %.1fs\n", time.Since(t0).Seconds())
-	cfg := Config{Harness: *fn, Workers: *workers, MaxPaths: *maxPaths, MaxSteps: *maxSteps, SolverMs: *solverMs, Trace: *trace,
+	cfg := Config{Harness: *fn, Workers: *workers, MaxPaths: *maxPaths, MaxSteps: *maxSteps, MaxAlloc: *maxAlloc, SolverMs: *solverMs, Trace: *trace,
 		Params: parseParams(*params), WitnessEvery: 0, Solver: solverKindOf(*solver)}
 	if *timeLimit > 0 {
 		cfg.Deadline = time.Now().Add(*timeLimit)
